@@ -12,7 +12,9 @@ Definition retries_src : nat := Z.to_nat maxWriteResponseRetryCount.
 Inductive ev := ERead (plen n : nat) | EFail | EAck.
 
 (* the stream 0,1,2,...,len-1 (only positions matter to the model) *)
-Definition stream (len : nat) : list Z := map Z.of_nat (seq 0 len).
+Fixpoint stream_from (z : Z) (len : nat) : list Z :=
+  match len with O => [] | Datatypes.S l => z :: stream_from (z + 1)%Z l end.
+Definition stream (len : nat) : list Z := stream_from 0%Z len.
 
 Definition ev_step (S : list Z) (s : ust) (e : ev) : option ust :=
   match e with
